@@ -63,6 +63,17 @@ T = {
     "C14-D": ("C14", "is_triangulated returns True when the graph has fewer edges than nodes", "disconnected graph: a chordless cycle plus enough tree components", ["C14"], False),
     "C17-C": ("C17", "get_constant_bn returns a cached shared network", "get_constant_bn(), edit the returned network, get_constant_bn() again", ["C17"], False),
     "C17-D": ("C17", "slice-0 forward message built from per-node marginals", ">= 2 dependent unobserved interface nodes and a query in slice >= 1 depending on both", ["C17"], False),
+    "C01-E": ("C01", "reduce() resolves an int/bool state inside 0..card-1 as a state number before the name table", "hard evidence on a variable whose integer/bool state names are not the identity numbering; non-greedy elimination order", ["C01", "C04"], False),
+    "C01-F": ("C01", "factor_product fast path multiplies same-scope factors elementwise without aligning axes (scope compared as a set)", "non-greedy order and a step whose factors share one scope of >= 2 variables in different orders", ["C01", "C04"], False),
+    "C02-E": ("C02", "_is_converged no longer compares clique marginals with the sepset belief", "initial potentials that already agree on every sepset (symmetric tables / all-ones factors)", ["C02"], False),
+    "C02-F": ("C02", "_update_beliefs skips a message equal (absolute tolerance 1e-8) to the sepset belief", "potentials of small absolute scale", ["C02"], False),
+    "C04-E": ("C04", "integer state names that are a permutation of 0..n-1 get the identity name<->number maps", "explicit state names 0..n-1 in non-ascending order and a lookup by name (reduce)", ["C04", "C01"], False),
+    "C04-F": ("C04", "compat max reduces one axis at a time assuming ascending axes", "maximize over >= 2 variables listed in another order than their axes", ["C04", "C03"], False),
+    "C06-E": ("C06", "explicit Dirichlet pseudo-counts taken without copy and counts added in place", "prior_type='dirichlet' with float64 ndarray pseudo-counts reused for a second fit (n_jobs=1)", ["C06", "C16"], False),
+    "C06-F": ("C06", "state_counts sorts parents by str() while the CPD labelling sorts naturally", "integer node names whose string order differs from numeric order (2, 10) on a node with >= 2 parents", ["C06"], False),
+    "C07-F": ("C07", "simulate(): column selection moved before the missingness mask (columns in set order)", "include_missing=True and a comparison across processes with different PYTHONHASHSEED", ["C07"], False),
+    "C09-E": ("C09", "XMLBIF writer strips trailing zeros also from the exponent of scientific notation", "an entry below 1e-4 with fractional mantissa and exponent ending in 0 (2.5e-10)", ["C09"], False),
+    "C09-F": ("C09", "UAI reader float regex accepts an exponent only after a decimal point", "entries like 1e-05 or 3e-12 (one-digit mantissa)", ["C09"], False),
     "C17-B": ("C17", "initialize_initial_state pairs parent cardinalities with reversed parent names", "a CPD given for one slice with >= 2 same-slice parents of different cardinalities", ["C17"], True),
 }
 
